@@ -31,6 +31,9 @@ func checkC14(c *Ctx) {
 	c.checkCleanupOrder()
 	c.checkAtomicRMW()
 	c.checkCollectorChannel()
+	c.checkDetachNeverDropped()
+	c.checkLockReleasedOnEveryPath()
+	c.checkCompletionChannelSignalled("C14.6c-completion-reported-on-every-path")
 }
 
 // ---------------------------------------------------------------------------------------------
